@@ -1,3 +1,5 @@
+//go:build go1.25
+
 package props
 
 // C04 with large backlogs (virtual time): thousands of values are put, read and committed in big strides, consumers are
